@@ -93,9 +93,7 @@ def make_replay(chk):
         name = '%s-%d-%d-%d' % ('s' if case['signed'] else 'u', case['size'], case['bitsize'], case['bitshift'])
         path = chk.write_replay(name, body)
         rc, out = common.run_replay(path)
-        if rc not in (0, 1):
-            raise common.HarnessError('replay script crashed:\n' + out[-2000:])
-        return rc == 1, path
+        return common.replay_verdict(rc, out), path
     return replay
 
 
